@@ -15,7 +15,7 @@ const GRID: i64 = 600;
 fn cmdv(args: &[&[u8]]) -> V { V::cmd(args) }
 fn cmdo(args: &[Vec<u8>]) -> V { V::Array(args.iter().map(|a| V::Bulk(a.clone())).collect()) }
 
-struct G { r: Rng, next_el: u32, nkeys: usize }
+struct G { r: Rng, next_el: u32, nkeys: usize, maybe_str: Vec<Vec<u8>> }
 impl G {
     fn key(&mut self) -> Vec<u8> { LKEYS[self.r.below(self.nkeys as u64) as usize].to_vec() }
     fn els(&mut self, n: usize) -> Vec<Vec<u8>> { (0..n).map(|_| { self.next_el += 1; format!("e{}", self.next_el).into_bytes() }).collect() }
@@ -33,7 +33,11 @@ impl G {
         for c in name { lit += &format!("\\{:03}", c); }
         lit.push('"');
         let src = format!("local r={{}}\nr[1]=redis.call({},KEYS[1],ARGV[1])\nreturn r[1]", lit);
-        let k = self.key(); let e = self.els(1);
+        // not on a key that may hold a string by now: the error code of a failing redis.call is C12's subject
+        // (Model/Lua.v), here the script only has to push
+        let k = self.key();
+        if self.maybe_str.contains(&k) { return self.push(); }
+        let e = self.els(1);
         cmdo(&[b"EVAL".to_vec(), src.into_bytes(), b"1".to_vec(), k, e[0].clone()])
     }
     fn pop(&mut self) -> V {
@@ -64,7 +68,7 @@ pub fn gen(seed: u64, n: usize, _tier: &str) -> Vec<Case> {
     let mut cases = vec![];
     let mut root = Rng::new(seed);
     for id in 0..n {
-        let mut g = G { r: root.fork(), next_el: 0, nkeys: 2 + (id % 2) };
+        let mut g = G { r: root.fork(), next_el: 0, nkeys: 2 + (id % 2), maybe_str: vec![] };
         let nc = 2 + g.r.below(3) as i64;
         let mut ops: Vec<Vec<Tok>> = vec![conn_op(OBS)];
         for c in 1..=nc { ops.push(bconn_op(c)); }
@@ -121,8 +125,8 @@ pub fn gen(seed: u64, n: usize, _tier: &str) -> Vec<Case> {
                     // a key the clients wait on becomes a string for a while, or is deleted
                     let k = g.key();
                     match g.r.below(3) {
-                        0 => ops.push(cmd_op(OBS, &[b"SETNX", &k, b"x"])),
-                        _ => { ops.push(cmd_op(OBS, &[b"LRANGE", &k, b"0", b"-1"])); ops.push(cmd_op(OBS, &[b"DEL", &k])); }
+                        0 => { ops.push(cmd_op(OBS, &[b"SETNX", &k, b"x"])); g.maybe_str.push(k.clone()); }
+                        _ => { ops.push(cmd_op(OBS, &[b"LRANGE", &k, b"0", b"-1"])); ops.push(cmd_op(OBS, &[b"DEL", &k])); g.maybe_str.retain(|x| x != &k); }
                     }
                 }
                 36 => {
@@ -141,6 +145,7 @@ pub fn gen(seed: u64, n: usize, _tier: &str) -> Vec<Case> {
                     // the key of a wake-up under way turns into a string before the wake-up runs
                     let k = g.key(); let e = g.els(1);
                     let b = vec![cmdo(&[b"RPUSH".to_vec(), k.clone(), e[0].clone()]), cmdo(&[b"LPOP".to_vec(), k.clone()]), cmdo(&[b"SETNX".to_vec(), k.clone(), b"x".to_vec()])];
+                    g.maybe_str.push(k.clone());
                     ops.push(bsend_op(c, &b)); ops.push(brecv_op(c));
                 }
                 _ => { let q = g.bpop(); ops.push(bsend_op(c, &[q])); }
